@@ -177,32 +177,44 @@ E_DEAR = [8, 9, 20, 100]
 
 
 @st.composite
-def tradeoff_nodes(draw, wl, levels=(2,), allow_leak=True, finite_tp=True, cap_bind=True):
-    """Main + GLB (+Reg) + MAC with finite throughputs.  Half of the draws use the
-    'fast dear Main / slow cheap GLB' pattern that makes energy and latency pull apart;
-    the rest come from G.memory_hierarchies."""
-    if draw(st.integers(0, 1)) == 0:
-        return draw(G.memory_hierarchies(wl, levels=levels, finite_tp=finite_tp, allow_leak=allow_leak,
-                                         glb_bindable=cap_bind))
+def tradeoff_nodes(draw, wl, levels=(2,), allow_leak=True, finite_tp=True, cap_bind=True, dear_main=None):
+    """Main + GLB (+Reg) + MAC with finite throughputs, from G.memory_hierarchies, optionally with a cost
+    pattern laid over it.  dear_main: None = half plain, half 'dear_main'; True = 'dear_main';
+    'dear_main'  fast dear Main over slow cheap buffers (energy and latency pull apart);
+    'glb_good'   slow dear Main over fast cheap buffers and a fast MAC (buffer capacity matters for every metric);
+    'compute_bound' fast memories over a slow MAC (parallelism matters)."""
     nodes = draw(G.memory_hierarchies(wl, levels=levels, finite_tp=finite_tp, allow_leak=allow_leak,
                                       glb_bindable=cap_bind))
+    pattern = dear_main
+    if pattern is None:
+        pattern = "dear_main" if draw(st.booleans()) else False
+    if pattern is True:
+        pattern = "dear_main"
+    if not pattern:
+        return nodes
+    P = {"dear_main": ([2, 4, 8], [0.25, 0.5, 1], [1, 2, 4]),
+         "glb_good": ([0.25, 0.5, 1], [2, 4, 8], [4, 8]),
+         "compute_bound": ([4, 8, 16], [4, 8, 16], [0.5, 1])}[pattern]
     for n in nodes:
         if n["name"] == "Main":
-            n["read"] = [draw(st.sampled_from(E_DEAR)), draw(st.sampled_from([2, 4, 8]))]
-            n["write"] = [draw(st.sampled_from(E_DEAR)), draw(st.sampled_from([2, 4, 8]))]
+            n["read"] = [draw(st.sampled_from(E_DEAR)), draw(st.sampled_from(P[0]))]
+            n["write"] = [draw(st.sampled_from(E_DEAR)), draw(st.sampled_from(P[0]))]
         elif n["type"] == "Memory":
-            n["read"] = [draw(st.sampled_from(E_CHEAP)), draw(st.sampled_from([0.25, 0.5, 1]))]
-            n["write"] = [draw(st.sampled_from(E_CHEAP)), draw(st.sampled_from([0.25, 0.5, 1]))]
+            n["read"] = [draw(st.sampled_from(E_CHEAP)), draw(st.sampled_from(P[1]))]
+            n["write"] = [draw(st.sampled_from(E_CHEAP)), draw(st.sampled_from(P[1]))]
         elif n["type"] == "Compute":
-            n["compute"] = [draw(st.sampled_from([0, 1, 2])), draw(st.sampled_from([1, 2, 4]))]
+            n["compute"] = [draw(st.sampled_from([0, 1, 2])), draw(st.sampled_from(P[2]))]
     return nodes
 
 
 @st.composite
 def small_specs(draw, shapes=("matmul", "chain2", "matvec", "elementwise2"), bound_pool=None,
-                allow_leak=True, finite_tp=True, cap_bind=True, three_level_single=True, max_ops=400):
+                allow_leak=True, finite_tp=True, cap_bind=True, three_level_single=True, max_ops=400, tight=False,
+                dear_main=None):
     """1-2 Einsum specs that the mapper finishes in about a second: two memory levels, or three
-    for a single Einsum."""
+    for a single Einsum.  tight=True: every memory below Main is finite and smaller than the tensors
+    together; tight="very": a handful of values (capacity decides the optimum).  dear_main: cost pattern, see
+    tradeoff_nodes."""
     wl = draw(G.workloads(shapes=shapes, bound_pool=bound_pool or G.SMALL_BOUND_POOL, max_ops=max_ops))
     if list(wl["bits"].values())[0] == 1:
         # G's finite sizes are 'n values + half a value' to stay clear of the known exact-fit float32
@@ -210,7 +222,20 @@ def small_specs(draw, shapes=("matmul", "chain2", "matvec", "elementwise2"), bou
         wl["bits"] = {"All": 4}
     single = len(wl["einsums"]) == 1
     levels = (2, 2, 3) if (single and three_level_single) else (2,)
-    nodes = draw(tradeoff_nodes(wl, levels=levels, allow_leak=allow_leak, finite_tp=finite_tp, cap_bind=cap_bind))
+    nodes = draw(tradeoff_nodes(wl, levels=levels, allow_leak=allow_leak, finite_tp=finite_tp, cap_bind=cap_bind,
+                                dear_main=dear_main))
+    if tight:
+        bits = list(wl["bits"].values())[0]
+        sizes = G.tensor_sizes(wl)
+        tot, big = sum(sizes.values()), max(sizes.values())
+        for n in nodes:
+            if n["type"] == "Memory" and n["name"] != "Main":
+                cands = {2, 3, 4, max(2, big // 4), max(2, big // 2)} if tight == "very" else \
+                    {max(2, big // 4), max(2, big // 2), big, max(3, tot // 3), max(3, tot // 2)}
+                vals = draw(st.sampled_from(sorted(cands)))
+                if n["name"] == "Reg":
+                    vals = max(1, vals // 2) if tight == "very" else max(2, vals // 3)
+                n["size"] = vals * bits + max(1, bits // 2)      # never an exact fit (see above)
     d = dict(wl)
     d["nodes"] = nodes
     d["mapper"] = {}
@@ -231,7 +256,10 @@ def drive_unbiased(strategy, check, *, n, seed, col):
 
     # max_failures=1: a failing shard stops at its first failure instead of re-running all its (expensive)
     # cases to look for further keys; the other shards keep searching independently
-    drive(strategy, chk, n=n + 1, seed=seed, col=col, shrink=False, max_failures=1)
+    # Hypothesis' second example avoids the minimal value at its first choice point (measured: the first
+    # element of the first sampled_from came up 0 times in 35); a dummy leading draw absorbs that bias
+    unbiased = st.tuples(st.integers(0, 2 ** 16), strategy).map(lambda t: t[1])
+    drive(unbiased, chk, n=n + 1, seed=seed, col=col, shrink=False, max_failures=1)
 
 
 NSHARDS = {"quick": 8, "thorough": 16}   # import + numba JIT cost ~15 s per worker: few, fatter shards
